@@ -1267,7 +1267,21 @@ def _norm_bound(b, L, default_lo):
     if b is None:
         return z3.IntVal(0) if default_lo == 0 else L
     zb = num(py_index(b))
-    return z3.simplify(z3.If(zb < 0, z3.If(zb + L < 0, z3.IntVal(0), zb + L), z3.If(zb > L, L, zb)))
+    return ctx_simplify(z3.simplify(z3.If(zb < 0, z3.If(zb + L < 0, z3.IntVal(0), zb + L), z3.If(zb > L, L, zb))))
+
+
+def ctx_simplify(t, depth=0):
+    """resolve top-level if-then-else conditions that the path condition already decides (keeps index terms such as
+    slice bounds syntactically small, so that equal positions are equal TERMS and share definitional constants)"""
+    ex = Explorer.current
+    if ex is None or depth > 4 or not (z3.is_app(t) and t.decl().kind() == z3.Z3_OP_ITE):
+        return t
+    c, a, b = t.children()
+    if ex.implied(c):
+        return ctx_simplify(a, depth + 1)
+    if ex.implied(z3.Not(c)):
+        return ctx_simplify(b, depth + 1)
+    return z3.If(c, ctx_simplify(a, depth + 1), ctx_simplify(b, depth + 1))
 
 
 def _forall_t(tlen, body):
@@ -1288,6 +1302,12 @@ def _full_reduce(x, what):
         r.scalar_like = True
         r.reduced_from = (what, x)
         return r
+    if _is_one(x.tlen):
+        # a time axis of length one adds nothing to the reduction over the (arbitrary-element) value
+        r = T(x.f(z3.IntVal(0)), x.dtype, None, None, Shape(()))
+        r.scalar_like = True
+        r.reduced_from = (what, x)
+        return r
     # reduction over elements and time: an uninterpreted bound constrained at the time points we can name
     ex = cur()
     name = ex.fresh_name(what)
@@ -1295,9 +1315,55 @@ def _full_reduce(x, what):
     f = x.f
     tl = x.tlen
     if not isinstance(tl, int) or tl > 8:
-        raise Unsupported("full reduction over a symbolic-length time axis")
-    for i in range(tl):
-        ex.assume(v <= f(z3.IntVal(i)) if what == "amin" else v >= f(z3.IntVal(i)))
+        # symbolic length: the bound is a fresh constant v; the universally quantified fact
+        #     forall t in [0, L): v <= f(t)          (>= for amax)
+        # is instantiated lazily at EVERY index term at which the tensor is subsequently evaluated (the tensor's
+        # value function is wrapped in place).  Every instance is a true fact about the minimum, so this is sound;
+        # a common positive factor g (f = g*h) is pulled out, v = g*v', so that comparisons stay linear.
+        from .sym import _monomials
+
+        probe = z3.Int(ex.fresh_name("probe"))
+        g = None
+        try:
+            mons = _monomials(f(probe))
+            common = None
+            for _c, fs in mons:
+                ids = {q.get_id(): q for q in fs if z3.is_const(q) and q.decl().kind() == z3.Z3_OP_UNINTERPRETED}
+                common = ids if common is None else {k: q for k, q in common.items() if k in ids}
+            for q in (common or {}).values():
+                if ex.implied(q > 0):
+                    g = q
+                    break
+        except Exception:
+            g = None
+        vp = z3.Real(name + "!scaled") if g is not None else None
+        if g is not None:
+            v = g * vp
+        seen = set()
+        Lz = num(tl)
+
+        def wrapped(t, f=f):
+            val = f(t)
+            tid = t.get_id() if z3.is_expr(t) else ("c", t)
+            if tid not in seen:
+                seen.add(tid)
+                tz_ = t if z3.is_expr(t) else z3.IntVal(t)
+                if g is not None:
+                    from .sym import remove_factor
+
+                    h = remove_factor(val, g)
+                    if h is None:
+                        h = val / g
+                    fact = (vp <= h) if what == "amin" else (vp >= h)
+                else:
+                    fact = (v <= val) if what == "amin" else (v >= val)
+                ex.assume(z3.Implies(z3.And(tz_ >= 0, tz_ < Lz), fact))
+            return val
+
+        x.f = wrapped
+    else:
+        for i in range(tl):
+            ex.assume(v <= f(z3.IntVal(i)) if what == "amin" else v >= f(z3.IntVal(i)))
     r = T(v, x.dtype, None, None, Shape(()))
     r.scalar_like = True
     r.reduced_from = (what, x)
